@@ -352,6 +352,12 @@ func (r *run) c06(budget int, thorough bool) {
 	// which 3-byte types are swept completely in the quick tier: one per distinct code path
 	fullQuick := map[string]bool{"DPT_9001": true, "DPT_9002": true, "DPT_7001": true, "DPT_8001": true, "DPT_8003": true, "DPT_8004": true}
 	for _, t := range types {
+		if t.kind == reflect.String {
+			// strings (fixed 14-character and variable-length) have their own generators, whatever the
+			// encoded length of the type's zero value is
+			r.c06Structured(t, thorough)
+			continue
+		}
 		switch t.fixed {
 		case 1:
 			for b := 0; b < 256; b++ {
@@ -455,12 +461,43 @@ func (r *run) c06Structured(t typeInfo, thorough bool) {
 			r.c06Payload(t, p)
 		}
 	case "DPT_28001":
+		// text bytes of every kind: ASCII, well-formed multi-byte UTF-8, sequences cut short, ISO 8859-1
+		// text, lone continuation bytes, embedded NULs, random bytes; lengths 0..300
+		r.c06Payload(t, []byte{0, 0xe9, 0x74, 0xe9, 0})
+		r.c06Payload(t, []byte{0, 0x61, 0x62, 0xe4, 0xbd, 0})
+		r.c06Payload(t, []byte{0, 0x78, 0x80, 0x79, 0})
 		for i := 0; i < n; i++ {
 			l := r.rnd.Intn(24)
-			p := make([]byte, l)
-			r.rnd.Read(p)
-			if l >= 2 && i%2 == 0 {
-				p[0], p[l-1] = 0, 0
+			if i%50 == 0 {
+				l = r.rnd.Intn(300)
+			}
+			p := make([]byte, 0, l+2)
+			p = append(p, 0)
+			for len(p) < l+1 {
+				switch r.rnd.Intn(8) {
+				case 0:
+					p = append(p, []byte(string(rune(0x80+r.rnd.Intn(0x700))))...)
+				case 1:
+					p = append(p, []byte(string(rune(0x800+r.rnd.Intn(0xf000))))...)
+				case 2:
+					u := []byte(string(rune(0x800 + r.rnd.Intn(0xf000))))
+					p = append(p, u[:1+r.rnd.Intn(len(u)-1)]...) // cut short
+				case 3:
+					p = append(p, byte(0x80+r.rnd.Intn(0x80)))
+				case 4:
+					p = append(p, byte(r.rnd.Intn(256)))
+				default:
+					p = append(p, byte(0x20+r.rnd.Intn(0x5f)))
+				}
+			}
+			p = append(p, 0)
+			switch i % 11 {
+			case 0:
+				p[0] = byte(r.rnd.Intn(256))
+			case 1:
+				p[len(p)-1] = byte(r.rnd.Intn(256))
+			case 2:
+				p = p[:r.rnd.Intn(3)] // too short or minimal
 			}
 			r.c06Payload(t, p)
 		}
